@@ -41,12 +41,15 @@ def run(tier):
         keys = concrete.key_family(fam, 5, rng)
         vals = concrete.value_family(concrete.VALUE_FAMILIES[bi % 4], ["vA", "EMPTY"], rng)
         cases = []
-        for s in seqs[bi::nb]:
+        for ci, s in enumerate(seqs[bi::nb]):
             w = sstrun.writer_cfg(rng)
             w["writer"] = "stream"
-            cases.append(dict(w, writes=[{"k": h["k"], "v": h["v"], "fault": h["fault"]} for h in s],
-                              readers=[{"loader": rng.choice(sstrun.LOADERS), "rbuf": rng.choice([16, 4096]), "hash": "load"}],
-                              probes=[0, 1, 2, 3], ranges=[[0, 3]]))
+            # with lower-case ascii keys: every fourth case runs writer and readers under a case-insensitive comparator and offers either
+            # spelling of a key - "not strictly greater" is a statement about the comparator, not about the bytes
+            nocase = fam == "ascii" and ci % 4 == 0
+            cases.append(dict(w, writes=[{"k": h["k"], "v": h["v"], "fault": h["fault"], "alt": nocase and rng.random() < 0.5} for h in s],
+                              readers=[{"loader": ("skiplist" if nocase else rng.choice(sstrun.LOADERS)), "rbuf": rng.choice([16, 4096]), "hash": "load"}],
+                              probes=[0, 1, 2, 3], ranges=[[0, 3]], cmp="nocase" if nocase else ""))
         batches.append(("%s-%d" % (fam, bi), keys, vals, cases))
     total = sstrun.run_batches(o, binary, batches, "C15")
     o.evaluations = total
